@@ -16,6 +16,7 @@
 #include "aln_struct.h"
 #include "aln_mem.h"
 #include "aln_param.h"
+#include "msa_check.h"
 int kalign_arr_to_msa(char **input_sequences, int *len, int numseq, struct msa **multiple_aln);
 
 VK_MAIN()
@@ -26,8 +27,19 @@ VK_MAIN()
         VK_ASSERT(alloc_msa(&m, VK_N) == OK && m != NULL, "alloc_msa succeeds");
         m->numseq = VK_N;
         if (vin.b[0] & 1) VK_ASSERT(resize_msa_seq(m->sequences[0]) == OK && m->sequences[0]->alloc_len == 1024, "a sequence buffer grows by 512");
-        VK_ASSERT(set_sip_nsip(m) == OK, "set_sip_nsip succeeds");
-        if (vin.b[0] & 2) VK_ASSERT(set_sip_nsip(m) == OK, "set_sip_nsip can be repeated (several input files)");
+        /* several input files: the member lists are rebuilt each time a file is merged, with a growing sequence count */
+        if (vin.b[0] & 2) { m->numseq = 1; VK_ASSERT(set_sip_nsip(m) == OK, "set_sip_nsip succeeds"); m->numseq = VK_N; }
+        VK_ASSERT(set_sip_nsip(m) == OK, "set_sip_nsip succeeds (again, with more sequences)");
+        kalign_free_msa(m);
+#elif VK_MODE == 5
+        /* zero-length records are dropped by the input check; the msa (with its spare pre-allocated records) must still be
+         * released completely afterwards */
+        struct msa *m = NULL;
+        VK_ASSERT(alloc_msa(&m, VK_N + 1) == OK && m != NULL, "alloc_msa succeeds");
+        m->numseq = VK_N; m->quiet = 1;
+        for (int i = 0; i < VK_N; i++) { m->sequences[i]->len = vin.b[i] & 1; m->sequences[i]->name[0] = 'a'; m->sequences[i]->name[1] = 0; }
+        int rc = kalign_essential_input_check(m, 0);
+        (void)rc;
         kalign_free_msa(m);
 #elif VK_MODE == 2
         struct aln_tasks *t = NULL;
